@@ -545,5 +545,5 @@ example : ∃ t es, RI t es ∧ ValidQ t.F [(1, 0)] ∧ specFilter es ([(0, 1)] 
 end AITB.Trie
 
 /-- every statement of the anchored files that the model transcribes is in the source as the model assumes it
-    (`tools/extract_c20.py`, regenerated on every run: 93 sites of Trie.cpp, FasterTrie.cpp, FilterMap.hpp, IndexMap.hpp) -/
+    (`tools/extract_c20.py`, regenerated on every run: 98 sites of Trie.cpp, FasterTrie.cpp, FilterMap.hpp, IndexMap.hpp, Core.cpp) -/
 theorem AITB.Trie.sites_as_modelled : AITB.Gen.C20Sites.sites.all (fun s => s.2.2.1 == s.2.2.2) = true := by decide
